@@ -175,6 +175,19 @@ static void ph_fine(void *u) {
 }
 // the same per-cell oracle over a list that interleaves all 16 resolutions, pentagons, edge-crossing cells and plain hexagons in a
 // scrambled order: a result that depends on which cell (resolution, class, face) was processed before shows up here
+// cells at the zero crossings of (lat[k+1]-lat[k]) / (lng[k+1]-lng[k]): among them the cells with an exactly east-west / north-south edge
+static void ph_axis(void *u) {
+    for (int r = 15; r >= 12; r--) {
+        U64Vec v = {0};
+        dom_axis(r, r == 15 ? (mc_thorough ? 3000 : 400) : (mc_thorough ? 6000 : 600), mc_wid, mc_nw, &v);
+        for (size_t i = 0; i < v.n; i++) {
+            if ((i & 15) == 0 && mc_expired()) return;
+            mc_states(1);
+            MC_RUN(OP_CELL, H(v.v[i]));
+        }
+        uv_free(&v);
+    }
+}
 static void ph_seq(void *u) {
     // strides chosen so that consecutive elements lie in different resolutions / classes; every start residue is covered
     static const size_t strides[] = {1, 7919, 104729, 1299709};
@@ -223,5 +236,6 @@ int main(int argc, char **argv) {
     while (g_mix.n > 1 && (g_mix.n % 2 == 0 || g_mix.n % 3 == 0 || g_mix.n % 5 == 0 || g_mix.n % 7 == 0 || g_mix.n % 11 == 0)) g_mix.n--;
     mc_phase("mixed-resolution scrambled order", ph_mixed, NULL);
     mc_phase("bare call sequences across resolutions", ph_seq, NULL);
+    mc_phase("cells with an (almost) exactly axis-parallel edge, res 12-15", ph_axis, NULL);
     return mc_finish();
 }
